@@ -2,11 +2,12 @@ module verif/harness
 
 go 1.18
 
-require github.com/google/martian/v3 v3.0.0
-
 require (
-	golang.org/x/net v0.0.0-20190628185345-da137c7871d7 // indirect
-	golang.org/x/text v0.3.0 // indirect
+	github.com/golang/snappy v0.0.3
+	github.com/google/martian/v3 v3.0.0
+	golang.org/x/net v0.0.0-20190628185345-da137c7871d7
 )
+
+require golang.org/x/text v0.3.0 // indirect
 
 replace github.com/google/martian/v3 => /repo
